@@ -47,7 +47,7 @@ class C22(Property):
     props_files = ["SFV/Props/C22.lean"]
     drivers = ["Drivers/C22.lean"]
     translators = [cmdtmpl.generate]
-    quick_budget_s = 300
+    quick_budget_s = 600
     rule = ("random trees (0..30 entries, empty files and directories, binary contents, names with blanks, quotes, unicode, leading dashes, in-tree "
             "symlinks; up to 1 MiB files in the thorough tier) are transferred with the real DefaultDataManager.transfer_data between every "
             "pair of {local, fake remote A location 0/1, fake remote B} (persistent-sh BaseConnector subclasses rooted in private directories), "
@@ -137,7 +137,7 @@ class C22(Property):
                     except Exception:  # noqa: BLE001
                         pass
         try:
-            run_watchdog(go, 40)
+            run_watchdog(go, 75)
             obs["status"] = "ok"
         except Hang as e:
             obs["status"] = "hang"
@@ -271,6 +271,8 @@ class C22(Property):
         return lines, expect, meta
 
     def explore(self, ctx: Ctx) -> None:
+        from sfv.rt.shfake import limit_failures
+        limit_failures(ctx)
         self._setup(ctx)
         rng = ctx.rng
         big = ctx.tier == "thorough" or ctx.mode == "search"
@@ -287,7 +289,7 @@ class C22(Property):
             {"seed": 3, "src_kind": "local", "dst_kind": "remA0", "writable": True, "dst_exists_dir": False, "src_is_dir": True, "src_name": "srcdir", "dst_name": 'q"uote', "entries": 5, "big": None},
             {"seed": 4, "src_kind": "remA0", "dst_kind": "remB0", "writable": False, "dst_exists_dir": False, "src_is_dir": False, "src_name": "a b", "dst_name": "plain", "entries": 0, "big": None},
         ]
-        n = 150 if big else 24
+        n = 150 if big else 18
         cases = corpus + [self.gen_case(rng, big and ctx.tier == "thorough") for _ in range(n)]
         for case in cases:
             if ctx.out_of_time():
